@@ -2,6 +2,7 @@ import warnings
 from keyword import iskeyword
 
 from rope.base import (
+    builtins,
     codeanalyze,
     evaluate,
     exceptions,
@@ -37,6 +38,10 @@ class Rename:
                 raise exceptions.RefactoringError(
                     "Rename refactoring should be performed"
                     " on resolvable python identifiers."
+                )
+            if isinstance(self.old_pyname, builtins.BuiltinName):
+                raise exceptions.RefactoringError(
+                    f"Cannot rename the builtin <{self.old_name}>."
                 )
         else:
             if not resource.is_folder() and resource.name == "__init__.py":
